@@ -88,10 +88,17 @@ def install(reg):
         n = lift(x.shape[d])
         sh = lift(shifts)
 
+        small = isinstance(shifts, int) and abs(shifts) <= 1
+
         def fn(*idx, _xf=x.fn, _d=d):
             idx = list(idx)
             # out[i] = in[(i - shift) mod n]   (n > 0 on any inhabited index)
-            idx[_d] = V.py_mod(idx[_d] - sh, n)
+            if small:
+                # |shift| <= 1 <= n: the modulus is a single conditional wrap (keeps obligations linear)
+                j = idx[_d] - shifts
+                idx[_d] = z3.If(j >= n, j - n, z3.If(j < 0, j + n, j))
+            else:
+                idx[_d] = V.py_mod(idx[_d] - sh, n)
             return _xf(*idx)
 
         return tensor(x.shape, fn, x.kind)
@@ -121,6 +128,40 @@ def install(reg):
         return tensor(shape, fn, "real")
 
     M[torch.stack] = m_stack
+
+    def m_cat(interp, xs, dim=0):
+        xs = list(xs)
+        if not any(isinstance(x, SymArr) for x in xs):
+            return interp.native(torch.cat, xs, dim=dim)
+        base = xs[0]
+        d = dim % base.ndim
+        fns = [x.fn for x in xs]
+        sizes = [x.shape[d] for x in xs]
+        total = sizes[0]
+        for z in sizes[1:]:
+            total = total + z
+
+        def fn(*idx, _d=d):
+            idx = list(idx)
+            i = idx[_d]
+            # piecewise along the concatenation axis
+            offs = [z3.IntVal(0)]
+            for z in sizes[:-1]:
+                offs.append(offs[-1] + lift(z))
+            sub = list(idx)
+            sub[_d] = i - offs[-1]
+            r = fns[-1](*sub)
+            for q in range(len(xs) - 2, -1, -1):
+                sub = list(idx)
+                sub[_d] = i - offs[q]
+                r = ite(i < offs[q + 1], fns[q](*sub), r)
+            return r
+
+        shape = list(base.shape)
+        shape[d] = total
+        return tensor(shape, fn, base.kind)
+
+    M[torch.cat] = m_cat
 
     for name in ("cos", "sin", "exp", "log", "sqrt", "sinh"):
         f = getattr(torch, name)
